@@ -4,7 +4,9 @@ import json, os, re, sys, time, hashlib
 
 VERIF = os.path.dirname(os.path.dirname(os.path.abspath(__file__)))
 KF_PATH = os.path.join(VERIF, "known_findings.json")
-EVID_DIR = os.path.join(VERIF, "evidence")
+# VERIF_EVIDENCE_DIR: used only when a check is pointed at a scratch tree (seeded-change runs) so that the
+# evidence of /repo is not overwritten
+EVID_DIR = os.environ.get("VERIF_EVIDENCE_DIR") or os.path.join(VERIF, "evidence")
 REPLAY_DIR = os.path.join(EVID_DIR, "replay")
 
 
